@@ -232,7 +232,7 @@ def flood_ok(ctx, nsw, phys, flood):
   return msgs
 
 
-def h_forest(ctx, nsw, par, toggle, order='asc', reboot=False):
+def h_forest(ctx, nsw, par, toggle, order='asc', reboot=False, selfloop=False):
   core = env.get_core()
   ST = ctx.pox('pox.openflow.spanning_tree'); D = ctx.pox('pox.openflow.discovery'); of = ctx.pox('pox.openflow.libopenflow_01')
   dpids = list(range(1, nsw + 1))
@@ -245,6 +245,7 @@ def h_forest(ctx, nsw, par, toggle, order='asc', reboot=False):
     for b in range(a + 1, nsw):
       for k in range(par):
         cables.append((a, 10 * (b + 1) + k, b, 10 * (a + 1) + k))
+  if selfloop: cables.append((0, 90, 0, 91))          # two ports of switch 0 patched together (a cabling mistake): a link like any other to Discovery
   cons = {}
   for a in range(nsw):
     ports = [(99, b'\x02\x00\x00\x00\x63' + bytes([a]))]
@@ -363,7 +364,7 @@ def obligations(tier):
   adj = [dict(npre=n, op=o) for n in (0, 1, 2) for o in ('probe', 'expire', 'down')]
   forest = [dict(nsw=2, par=1, toggle=True), dict(nsw=2, par=2, toggle=True), dict(nsw=2, par=2, toggle=True, order='desc'), dict(nsw=3, par=1, toggle=False),
             dict(nsw=3, par=1, toggle=True), dict(nsw=3, par=1, toggle=True, order='desc')]
-  forest += [dict(nsw=3, par=2, toggle=False), dict(nsw=4, par=1, toggle=False)]
+  forest += [dict(nsw=3, par=2, toggle=False), dict(nsw=4, par=1, toggle=False), dict(nsw=2, par=1, toggle=True, selfloop=True)]
   forest += [dict(nsw=3, par=1, toggle=False, reboot=True), dict(nsw=3, par=1, toggle=False, reboot=True, order='desc'), dict(nsw=2, par=2, toggle=False, reboot=True),
              dict(nsw=3, par=1, toggle=False, reboot='flap'), dict(nsw=3, par=1, toggle=False, reboot='flap', order='desc')]
   if thorough: forest += [dict(nsw=4, par=1, toggle=True), dict(nsw=3, par=2, toggle=True)]
